@@ -44,10 +44,12 @@ SHAPE_SPECS = {
     "trap": ("Trapezoid", [0.0, 0.25, 0.5, 1.0]),
     "rect": ("Rectangle", [0.25, 0.75]),
 }
+TINY = 2.0**-12  # a positive degree below the library comparison tolerance (atol = 1e-3)
 GROUPS = {
     "ts": ["k1", "k2", "lin", "fn"],
     "tsuka": ["rampu", "rampd", "sigu", "conc"],
     "tsukb": ["ssh", "zsh", "arc", "sigd"],
+    "tsukh": ["ramph", "rampd"],  # a monotonic term of height 1/2
     "inverse": ["tri", "gau", "trap", "rect"],
     "mixed-ts-inv": ["k1", "tri"],
     "mixed-ts-tsu": ["k2", "rampu"],
@@ -76,6 +78,9 @@ def build_terms():
             "z": (lambda w, c=cls, q=p: RT.membership(c, q, 1.0, w)),
             "tsukamoto": (lambda w, c=cls, q=p: RT.tsukamoto(c, q, 1.0, w)) if mono else None,
         }
+    real["ramph"] = make_term("Ramp", "ramph", [0.0, 1.0], 0.5)
+    ref["ramph"] = {"kind": "tsukamoto", "z": lambda w: RT.membership("Ramp", [0.0, 1.0], 0.5, w),
+                    "tsukamoto": lambda w: RT.tsukamoto("Ramp", [0.0, 1.0], 0.5, w)}
     import copy
     for name in list(real):
         twin = copy.copy(real[name])  # same name and parameters, different object (Linear/Function keep the engine reference)
@@ -214,6 +219,8 @@ def run_seq(acc: Acc, real, ref, group: str, aggr_name, seq, impl_cache) -> None
 
 def run_batch(acc: Acc, real, ref, group: str, aggr_name, pair) -> None:
     rows = [(0.25, 1.0), (0.5, 0.0), (1.0, 0.5), (0.0, 0.0), (0.0, 0.75)]
+    if "ramph" in pair:
+        rows = [(0.25, 0.5), (0.5, 0.0), (0.125, 0.25), (0.0, 0.0), (0.0, 0.375)]  # degrees within the height 1/2
     aggr = getattr(fl, aggr_name)() if aggr_name else None
     d1 = np.array([r[0] for r in rows])
     d2 = np.array([r[1] for r in rows])
@@ -255,6 +262,13 @@ def run_shard(tier: str, seed: int, shard):
     for pair in itertools.product(GROUPS[group], repeat=2):
         acc.guard({"group": group, "aggregation": aggr_name, "pair": list(pair), "batch": True},
                   run_batch, acc, real, ref, group, aggr_name, pair)
+    # total weights inside (0, atol]: the result is still the weighted average / sum, not NaN
+    tiny_atoms = [(n, d) for n in GROUPS[group][:2] for d in (TINY, TINY / 2)]
+    for L in (1, 2):
+        for seq in itertools.product(tiny_atoms, repeat=L):
+            acc.guard({"group": group, "aggregation": aggr_name, "sequence": [list(s) for s in seq]},
+                      run_seq, acc, real, ref, group, aggr_name, seq, cache)
+            acc.cls("tiny_total_weight")
     if shard == ("tsuka", 1):
         seq = [("rampu", 0.5), ("conc", 0.25), ("rampu", 0.5)]
         acc.sample({"sequence": seq, "aggregation": aggr_name, "WeightedAverage(Automatic)":
